@@ -77,6 +77,12 @@ static int mem_tok(struct instr *instr_buffer, char *mem, int opd_pos) {
     // if displacement is negative represent in 2's complement
     if (neg)
       instr_buffer->mem_offset = process_neg_disp(instr_buffer->mem_offset);
+  } else if (index_const != NA && instr_buffer->opd[opd_pos].sib[0] != '\0') {
+    // [disp+index*scale]: the constant is the displacement of the scaled index,
+    // not an absolute address (emitting both exceeded BUFFER_TOLERANCE)
+    instr_buffer->mem_offset = strtoul(mem + index_const, NULL, base);
+    if (neg)
+      instr_buffer->mem_offset = process_neg_disp(instr_buffer->mem_offset);
   } else if (index_const != NA) {
     instr_buffer->mem_value = true;
     instr_buffer->mem_const = strtoul(mem + index_const, NULL, base);
